@@ -187,16 +187,15 @@ theorem handleFrame_preserves_storeOk (c : Cfg) (st : LinkSt) (frame : Bytes)
     unfold StoreOk; rw [hc]; exact this
 
 /-- a decoder for the examples: a frame `[s, i, n, x]` is an LpPacket with Sequence `s`,
-    FragIndex `i`, FragCount `n` and the one-byte fragment `[x]`; `[5]` and `[5, 5]` are bare Interests,
-    `[6]` a bare Data; everything else fails to decode. -/
+    FragIndex `i`, FragCount `n` and the one-byte fragment `[x]`; `[5, 0]` is a bare Interest (type 5, length 0),
+    `[6, 0]` a bare Data; everything else fails to decode. -/
 def exDec : Bytes → Option Pkt
   | [s, i, n, x] =>
     some { interest := false, data := false,
            lp := some { seq := some s, idx := some i, cnt := some n, token := none,
                         fragment := some [x] } }
-  | [5] => some { interest := true, data := false, lp := none }
-  | [5, 5] => some { interest := true, data := false, lp := none }
-  | [6] => some { interest := false, data := true, lp := none }
+  | [5, 0] => some { interest := true, data := false, lp := none }
+  | [6, 0] => some { interest := false, data := true, lp := none }
   | _ => none
 
 def exCfg : Cfg := { reassembly := true, threads := 2, dec := exDec }
@@ -206,11 +205,13 @@ example : handleFrame exCfg initSt [9, 1, 3, 5] =
     some ({ store := [(8, [[], [5], []])] }, .nothing) := by rfl
 -- the crash input of F-04c (FragIndex 7 ≥ FragCount 3) is dropped
 example : handleFrame exCfg initSt [9, 7, 3, 5] = some (initSt, .nothing) := by rfl
--- the second fragment completes the two-fragment Interest `[5, 5]`: entry erased, Interest delivered
-example : handleFrame exCfg { store := [(9, [[5], []])] } [10, 1, 2, 5] =
+-- the second fragment completes the two-fragment Interest `[5, 0]`: entry erased, Interest delivered
+example : handleFrame exCfg { store := [(9, [[5], []])] } [10, 1, 2, 0] =
     some ({ store := [], nInInterests := 1 }, .interest) := by rfl
-example : (runFrames exCfg initSt [[9, 0, 2, 5], [10, 1, 2, 5]]) =
+example : (runFrames exCfg initSt [[9, 0, 2, 5], [10, 1, 2, 0]]) =
     some { store := [], nInInterests := 1 } := by rfl
+-- (F-09c) a payload with a second TLV behind the first is not ONE packet: dropped, not dispatched
+example : singleTlv [5, 0] = true ∧ singleTlv [5, 0, 6, 0] = false ∧ singleTlv [5, 1, 7] = true ∧ singleTlv [5, 2, 7] = false := by decide
 -- a fragment whose FragCount disagrees with the stored entry is dropped, entry kept
 example : handleFrame exCfg { store := [(9, [[5], []])] } [10, 1, 3, 5] =
     some ({ store := [(9, [[5], []])] }, .nothing) := by rfl
